@@ -42,11 +42,16 @@ func newBackendTransitionSessionHandler(
 			serverConn.config().BungeePluginChannelEnabled,
 			serverConn.player, proxy,
 		),
-		log: serverConn.log.WithName("backendTransitionSession")}
+		// Created here, not in Activated: SetActiveSessionHandler calls Activated after it has
+		// published the handler, so the read loop may already handle JoinGame and run
+		// Deactivated concurrently. Deactivated then found a nil channel, nothing ever closed
+		// the one Activated made, and the watcher below disconnected the (by then current)
+		// server connection as soon as the request context ended.
+		listenDoneCtx: make(chan struct{}),
+		log:           serverConn.log.WithName("backendTransitionSession")}
 }
 
 func (b *backendTransitionSessionHandler) Activated() {
-	b.listenDoneCtx = make(chan struct{})
 	go func() {
 		select {
 		case <-b.listenDoneCtx:
